@@ -5,13 +5,17 @@
 package main
 
 import (
+	"encoding/json"
 	"flag"
 	"fmt"
 	"math/rand"
+	"net"
 	"os"
+	"path/filepath"
 	"sort"
 	"strings"
 	"sync"
+	"sync/atomic"
 	"time"
 
 	"github.com/Shopify/sarama"
@@ -437,6 +441,140 @@ func (r *runner) monitorHop(h hop, o hopObs, liveBefore map[int]bool) {
 	}
 }
 
+
+// ---------- shared infrastructure: one listener, one client per configuration ----------
+// Opening a listener and a client (2-3 TCP connections) per case leaves tens of thousands of sockets in TIME_WAIT in the
+// thorough tier and fails on a machine that is short of ephemeral ports.  All cases share one MockBroker (its handler is
+// replaced per case) and one client per offset-manager configuration; listener creation and dialling are retried with
+// back-off.  A case only ever talks through its own handler closure and its own OffsetManager, which is closed before
+// the next case starts, so nothing leaks between cases (checked: the output is byte-identical to one broker+client per case).
+type cfgKey struct {
+	RetryMax  int
+	Auto      bool
+	Retention int64
+	Initial   int64
+}
+
+type env struct {
+	mb      *sarama.MockBroker
+	clients map[cfgKey]sarama.Client
+}
+
+var theEnv = &env{clients: map[cfgKey]sarama.Client{}}
+
+const (
+	retryTimes = 50
+	retryPause = 100 * time.Millisecond
+)
+
+var dialGiveUps int64 // dial attempts that failed even after all retries: the case that saw one is not trustworthy
+
+// retryDialer is sarama's default dialer with retries: the listener exists for as long as the harness runs, so a refused or
+// failed dial is an accident of the environment (no free ephemeral port), not behaviour of the code under test.
+type retryDialer struct{ d net.Dialer }
+
+func (rd *retryDialer) Dial(network, addr string) (net.Conn, error) {
+	var err error
+	for i := 0; i < retryTimes; i++ {
+		var c net.Conn
+		if c, err = rd.d.Dial(network, addr); err == nil {
+			return c, nil
+		}
+		time.Sleep(retryPause)
+	}
+	atomic.AddInt64(&dialGiveUps, 1)
+	return nil, err
+}
+func (rd *retryDialer) String() string { return "retryDialer" }
+
+func tryBroker() (mb *sarama.MockBroker, err error) {
+	defer func() {
+		if x := recover(); x != nil {
+			mb, err = nil, fmt.Errorf("%v", x)
+		}
+	}()
+	return sarama.NewMockBroker(quietReporter{}, 1), nil
+}
+
+func (e *env) broker() *sarama.MockBroker {
+	if e.mb != nil {
+		return e.mb
+	}
+	var err error
+	for i := 0; i < retryTimes; i++ {
+		var mb *sarama.MockBroker
+		if mb, err = tryBroker(); err == nil {
+			e.mb = mb
+			return mb
+		}
+		time.Sleep(retryPause)
+	}
+	panic(fmt.Sprintf("mock broker listener could not be created in %d attempts: %v", retryTimes, err))
+}
+
+func (e *env) client(c caseT) sarama.Client {
+	k := cfgKey{c.RetryMax, c.Auto, c.Retention, c.Initial}
+	if cl, ok := e.clients[k]; ok && !cl.Closed() {
+		return cl
+	}
+	cfg := sarama.NewConfig()
+	cfg.Version = sarama.V0_9_0_0
+	cfg.Net.Proxy.Enable = true
+	cfg.Net.Proxy.Dialer = &retryDialer{d: net.Dialer{Timeout: cfg.Net.DialTimeout, KeepAlive: cfg.Net.KeepAlive}}
+	cfg.Metadata.Retry.Max = 0
+	cfg.Metadata.Retry.Backoff = 0
+	cfg.Metadata.RefreshFrequency = 0
+	cfg.Consumer.Return.Errors = true
+	cfg.Consumer.Offsets.AutoCommit.Enable = c.Auto
+	cfg.Consumer.Offsets.AutoCommit.Interval = time.Hour
+	cfg.Consumer.Offsets.Retry.Max = c.RetryMax
+	cfg.Consumer.Offsets.Retention = time.Duration(c.Retention) * time.Millisecond
+	cfg.Consumer.Offsets.Initial = c.Initial
+	var err error
+	for i := 0; i < retryTimes; i++ {
+		var cl sarama.Client
+		if cl, err = sarama.NewClient([]string{e.broker().Addr()}, cfg); err == nil {
+			e.clients[k] = cl
+			return cl
+		}
+		time.Sleep(retryPause)
+	}
+	panic(fmt.Sprintf("NewClient failed %d times: %v", retryTimes, err))
+}
+
+// reset drops everything (after a case that could not be run): the next case starts on a new listener and new clients
+func (e *env) reset() {
+	for k, cl := range e.clients {
+		func() {
+			defer func() { _ = recover() }()
+			_ = cl.Close()
+		}()
+		delete(e.clients, k)
+	}
+	if e.mb != nil {
+		func() {
+			defer func() { _ = recover() }()
+			e.mb.Close()
+		}()
+		e.mb = nil
+	}
+}
+
+// safeRun runs one case; a panic (listener/client could not be created, anything unexpected inside the harness) or a dial
+// that failed for good is an error of the run, not an observation
+func safeRun(c caseT) (obs []hopObs, mon *cf.Monitor, err error) {
+	g0 := atomic.LoadInt64(&dialGiveUps)
+	defer func() {
+		if x := recover(); x != nil {
+			obs, mon, err = nil, nil, fmt.Errorf("panic: %v", x)
+		} else if atomic.LoadInt64(&dialGiveUps) != g0 {
+			obs, mon, err = nil, nil, fmt.Errorf("a connection to the mock coordinator could not be opened in %d attempts", retryTimes)
+		}
+	}()
+	obs, mon = runCase(c)
+	return
+}
+
 func runCase(c caseT) (obs []hopObs, mon *cf.Monitor) {
 	r := &runner{c: c, store: map[int]pairT{}, handles: map[int]sarama.PartitionOffsetManager{}, released: map[int]bool{},
 		pend: map[int]pairT{}, touched: map[int]bool{}, dead: map[int]bool{}, lastStore: map[int]pairT{}}
@@ -444,8 +582,7 @@ func runCase(c caseT) (obs []hopObs, mon *cf.Monitor) {
 		r.store[p] = v
 		r.lastStore[p] = v
 	}
-	mb := sarama.NewMockBroker(quietReporter{}, 1)
-	defer mb.Close()
+	mb := theEnv.broker()
 	mb.VerifC06Install(&sarama.VerifC06Coordinator{
 		Topics: map[string][]int32{"t0": {0, 1}, "t1": {0}},
 		OnFindCoordinator: func() int16 {
@@ -468,29 +605,18 @@ func runCase(c caseT) (obs []hopObs, mon *cf.Monitor) {
 		},
 		OnCommit: r.onCommit,
 	})
-	cfg := sarama.NewConfig()
-	cfg.Version = sarama.V0_9_0_0
-	cfg.Metadata.Retry.Max = 0
-	cfg.Metadata.Retry.Backoff = 0
-	cfg.Metadata.RefreshFrequency = 0
-	cfg.Consumer.Return.Errors = true
-	cfg.Consumer.Offsets.AutoCommit.Enable = c.Auto
-	cfg.Consumer.Offsets.AutoCommit.Interval = time.Hour
-	cfg.Consumer.Offsets.Retry.Max = c.RetryMax
-	cfg.Consumer.Offsets.Retention = time.Duration(c.Retention) * time.Millisecond
-	cfg.Consumer.Offsets.Initial = c.Initial
-	client, err := sarama.NewClient([]string{mb.Addr()}, cfg)
-	if err != nil {
-		fmt.Fprintln(os.Stderr, "c06corr: NewClient:", err)
-		os.Exit(3)
-	}
-	defer client.Close()
+	client := theEnv.client(c)
 	om, err := sarama.NewOffsetManagerFromClient("g", client)
 	if err != nil {
-		fmt.Fprintln(os.Stderr, "c06corr: NewOffsetManagerFromClient:", err)
-		os.Exit(3)
+		panic(fmt.Sprint("NewOffsetManagerFromClient: ", err))
 	}
 	closedOM := false
+	defer func() {
+		// the case is over (also when it is abandoned by a panic): nothing of it may run into the next one
+		if !closedOM {
+			_ = om.Close()
+		}
+	}()
 	for _, h := range c.Hops {
 		live := map[int]bool{}
 		for _, p := range r.order {
@@ -561,6 +687,7 @@ func runCase(c caseT) (obs []hopObs, mon *cf.Monitor) {
 	}
 	if !closedOM {
 		_ = om.Close()
+		closedOM = true
 	}
 	return obs, r.mon
 }
@@ -851,12 +978,41 @@ func main() {
 	nshort := flag.Int("nshort", 500, "number of sampled short sequences (length 3-5 over the small alphabet)")
 	depth := flag.Int("depth", 2, "exhaustive enumeration depth over the small alphabet")
 	shard := flag.Int("shard", 120, "cases per Coq file")
+	failCase := flag.Int("failcase", -1, "self-test of the harness: pretend this case cannot be run (reported as HARNESSFAIL)")
+	crashCase := flag.Int("crashcase", -1, "self-test of the harness: die while running this case")
 	flag.Parse()
 	sarama.Logger = nopLogger{}
 	r := rand.New(rand.NewSource(*seed))
 	w := &cf.Writer{Dir: *out, Prefix: "cases_c06", Imports: "From SV Require Import C06.Model C06.Corr.", CaseType: "case", MismatchFn: "mismatches_c06", ShardSize: *shard}
+	emitted, skipped := 0, 0
+	cur := filepath.Join(*out, "c06corr_current.json") // the case being run: names the culprit if the process dies
 	emit := func(c caseT, gen string) {
-		obs, mon := runCase(c)
+		idx := emitted
+		emitted++
+		js, _ := json.Marshal(map[string]interface{}{"index": idx, "gen": gen, "script": c})
+		_ = os.WriteFile(cur, js, 0o644)
+		var obs []hopObs
+		var mon *cf.Monitor
+		var err error
+		if idx == *crashCase {
+			go func() { panic("c06corr -crashcase: simulated crash outside the case's goroutine") }()
+			time.Sleep(time.Second)
+		}
+		for attempt := 0; attempt < 3; attempt++ {
+			if idx == *failCase {
+				err = fmt.Errorf("-failcase: simulated failure")
+			} else if obs, mon, err = safeRun(c); err == nil {
+				break
+			}
+			theEnv.reset()
+			time.Sleep(time.Duration(attempt+1) * time.Second)
+		}
+		if err != nil {
+			// not an observation of the code: the case is left out and reported (the check counts it as a broken tie)
+			skipped++
+			fmt.Printf("HARNESSFAIL case=%d gen=%s reason=%q script=%s\n", idx, gen, err.Error(), js)
+			return
+		}
 		w.Add(coqCase(c, obs), cf.Sidecar{Case: map[string]interface{}{"gen": gen, "script": c, "observed": obs}, Kind: kindOf(c), Nontrivial: nontrivial(c, obs), Monitor: mon})
 	}
 	al := alphabet()
@@ -916,6 +1072,9 @@ func main() {
 		emit(randCase(r, 40), "random")
 	}
 	w.Close()
+	theEnv.reset()
+	_ = os.Remove(cur)
+	fmt.Printf("C06CORR cases=%d skipped=%d\n", emitted, skipped)
 }
 
 type nopLogger struct{}
